@@ -633,7 +633,7 @@ func (c03) NRuns(tier string) int {
 	if tier == "thorough" {
 		return 2000000
 	}
-	return 4000
+	return 12000
 }
 func (c03) Rule() string {
 	return "1..6 request/response rounds on one channel; response shapes: only DONE(0), rows, several result sets separated by DONE(MORE|COUNT), return status + DONEPROC, only invisible packages, trailing DONE with COUNT/PROC/ERROR/INXACT bits, no DONE at all, invisible packages after the final DONE, EED (info/non-info) and ENVCHANGE interleaved; every count/row value/message number unique per round; random packetisation, read sizes, queue size, asynchronous delivery; consumer modes manual loop, NextPackageUntil returning true at the final DONE, returning io.EOF at callback j and continuing, returning another error at callback j, nil callback; reference model = visible packages in order then exactly one DONE(0); non-trivial = at least two rounds; distinct = distinct (shape sequence, mode sequence, stop positions)"
@@ -764,7 +764,7 @@ func (c11) NRuns(tier string) int {
 	if tier == "thorough" {
 		return 1500000
 	}
-	return 4000
+	return 12000
 }
 func (c11) Rule() string {
 	return "the rounds world of C03 with many EED (info / non-info, any position and count) and ENVCHANGE packages (0..3 members of all four types, several PACKSIZE members), 0..3 message hooks and 0..3 environment hooks registered before the first round or between rounds, optionally one more message hook registered by a second task while a response is being delivered, packet cuts and read sizes, all consumer modes and callback outcomes; hooks and the consumer stamp what they see with the global event sequence number; non-trivial = at least one hook was called; distinct = distinct (shape sequence, hook counts, modes)"
